@@ -15,9 +15,13 @@ import (
 	"time"
 )
 
-// Base is the instant of tick 0. Ticks are minutes; gopki only compares
-// mtimes with After, so only their order matters.
+// Base is the instant of tick 0. A tick is 10 ms, so that the writes of a run and the runs of a
+// history lie within one second of each other, as they do in a scripted sequence of runs: gopki
+// compares modification times with After, at the resolution the filesystem reports them.
 var Base = time.Date(2020, 1, 1, 0, 0, 0, 0, time.UTC)
+
+// TickUnit is the distance between two ticks.
+const TickUnit = 10 * time.Millisecond
 
 type File struct {
 	Data []byte `json:"d"`
@@ -178,7 +182,7 @@ func (w *World) view() fstest.MapFS {
 	}
 	m := fstest.MapFS{}
 	for p, f := range w.Files {
-		m[p] = &fstest.MapFile{Data: f.Data, Mode: 0o644, ModTime: Base.Add(time.Duration(f.Tick) * time.Minute)}
+		m[p] = &fstest.MapFile{Data: f.Data, Mode: 0o644, ModTime: Base.Add(time.Duration(f.Tick) * TickUnit)}
 	}
 	w.mfs, w.mfsValid = m, true
 	return m
